@@ -17,6 +17,8 @@ CLAIM = (
     "tree, and the remover drops both ^ and $ and descends into what it keeps; (4) INTERSECT: several patterns are combined by "
     "intersection; (5) TYPE-MAP: the XSD type of each primitive type is the one whose lexical space the SDKs write; (6) errors are never "
     "dropped and chains over type annotations are exhaustive (ERR1-3, RET-XOR, EXH1) in xsd/main.py."
+    " SKIPS: the loops of the functions in scope have no more `continue`, `break` or in-loop `return` statements than the reference "
+    "read on the unchanged tree (baselines/skips.json): a new skip means elements that were handled are no longer handled."
 )
 NOTE = (
     "Oracles: XSD single-character escapes `\\\\n \\\\r \\\\t \\\\\\\\ \\\\| \\\\. \\\\? \\\\* \\\\+ \\\\( \\\\) \\\\{ \\\\} \\\\- \\\\[ \\\\] \\\\^`; the five-row XSD type table. "
@@ -55,6 +57,13 @@ def run(ctx) -> None:
         if err.has_xor_ensure(f):
             err.check_ret_xor(ctx, f, "RET-XOR")
         exh.check_exh1(ctx, f, "EXH1")
+    ctx.rule("SKIPS", "the loops of the functions in scope have no more continue/break/return-in-loop statements than the reference read on the unchanged tree", floor=3)
+    from ..rules import skips as _skips
+    _base = _skips.load_baseline()
+    for _m in ctx.p.modules.values():
+        if _m.name == "aas_core_codegen.xsd.main":
+            for _f in _m.functions.values():
+                _skips.check_skips(ctx, _f, "SKIPS", _base)
 
 
 def _assign_defs(f: FuncInfo) -> Dict[str, List[ast.Assign]]:
